@@ -798,17 +798,23 @@ func init() {
 			js = append(js, job("fit", "H08b"), job("fit", "H08c"))
 			js = append(js, hostJobs(meta, "H08e", tier == "thorough")...)
 			js = append(js, job("fit", "Hwide8"))
+			for i, j := range msgJobs(meta, "fit", "H08f") {
+				if tier == "thorough" || i%4 == 0 {
+					j.Prio = 1
+					js = append(js, j)
+				}
+			}
 			return js
 		},
-		MustReach:      []string{"C08.frame.no-state-survives-a-call", "C08.frame.accumulators-are-per-call", "C08.history.decode-independent-of-history", "C08.encode.identical-bytes-for-identical-files", "C08.encode.output-decodes", "C08.sequence.decode-independent-of-history", "C08.sequence.encode-independent-of-history", "C08.frame.encode-writes-no-shared-object", "C08.sequence.encode-independent-of-earlier-encodes"},
+		MustReach:      []string{"C08.history.definition-verdict-independent-of-history", "C08.frame.no-state-survives-a-call", "C08.frame.accumulators-are-per-call", "C08.history.decode-independent-of-history", "C08.encode.identical-bytes-for-identical-files", "C08.encode.output-decodes", "C08.sequence.decode-independent-of-history", "C08.sequence.encode-independent-of-history", "C08.frame.encode-writes-no-shared-object", "C08.sequence.encode-independent-of-earlier-encodes"},
 		NoNativeReplay: map[string]bool{"C08.frame.accumulators-are-per-call": true, "C08.frame.no-state-survives-a-call": true, "C08.frame.encode-writes-no-shared-object": true},
 		Bounds: map[string]interface{}{
-			"quick":    "shared-write frame: Decode (with both counting options), DecodeChained, CheckIntegrity, DecodeHeader, DecodeHeaderAndFileID and Encode on every model stream with n = 2 records plus a stream with the accumulated record sources; call sequences: Decode(B), then Decode/Encode/CheckIntegrity/DecodeChained on a stream A with two activity messages (arbitrary timestamps and local timestamps), then Decode(B) again, for every model stream B with n = 2, results and re-encoded bytes compared; history independence: one record with arbitrary valid accumulated sources decoded from an arbitrary state of the three package-level accumulators (any history's effect is some value of them) versus the fresh state; Encode determinism: two records with different fields under every map iteration order; Encode on hand-built Files: per profile message (first hosting file type) a File with every field set and strings of 2 arbitrary ASCII characters is encoded, then the same File with strings of 0..3 and of 0..5 characters, then the first again: no pre-existing object written, identical bytes",
-			"thorough": "as quick with n = 3 (every third of the 1000 kind orders) and every hosting file type",
+			"quick":    "shared-write frame: Decode (with both counting options), DecodeChained, CheckIntegrity, DecodeHeader, DecodeHeaderAndFileID and Encode on every model stream with n = 2 records plus a stream with the accumulated record sources; call sequences: Decode(B), then Decode/Encode/CheckIntegrity/DecodeChained on a stream A with two activity messages (arbitrary timestamps and local timestamps), then Decode(B) again, for every model stream B with n = 2, results and re-encoded bytes compared; history independence: one record with arbitrary valid accumulated sources decoded from an arbitrary state of the three package-level accumulators (any history's effect is some value of them) versus the fresh state; Encode determinism: two records with different fields under every map iteration order; Encode on hand-built Files: per profile message (first hosting file type) a File with every field set and strings of 2 arbitrary ASCII characters is encoded, then the same File with strings of 0..3 and of 0..5 characters, then the first again: no pre-existing object written, identical bytes (also after an Encode that failed part-way); Hwide8: two decodes of streams with a 90-field definition; H08f: the verdict of validateFieldDef on an arbitrary definition of a profile message (every fourth message) is the same before and after the same definition was validated for an arbitrary unknown message number",
+			"thorough": "as quick with n = 3 (every third of the 1000 kind orders), every hosting file type, H08f for every message",
 		},
 		Outside: []string{"'equal to what a fresh process returns' is taken as 'equal to the run from the interpreted initial state of the package'", "json.go's buffer pool is not on any decode/encode path (no write to it is recorded) and is not claimed",
 			"the two frame assertions are facts about the engine's heap (writes to objects that pre-exist the call) and have no native counterpart; their observable consequence is replayed natively through H08b"},
-		Assumptions: append([]string{"an object is 'shared' when it was allocated by package initialisation or is a package-level variable"}, commonAssumptions...),
+		Assumptions: append([]string{"an object is 'shared' when it was allocated by package initialisation or is a package-level variable", "writes through goroutine-safe containers (sync.Map, sync.Pool) or made while a sync.Mutex/RWMutex is held or inside sync.Once.Do are synchronised and are not counted by the frame assertions (a correct cache must not raise an alarm); whether such state changes results is decided by the history-independence assertions (H08b, H08d, H08e, H08f, Hwide8)"}, commonAssumptions...),
 	})
 	reg(&CheckDef{
 		ID:    "C09",
